@@ -112,6 +112,20 @@ Theorem C05_exclusion_wins : forall (c : opcfg) host text bits,
 Proof. exact exclusion_wins_lemma. Qed.
 Print Assumptions C05_exclusion_wins.
 
+(* --exclusion-file given several times: the lines of ALL files are in force, in file order
+   (GenerateCrawlConfig appends).  [matches] stands for Go's regexp. *)
+Theorem C05_exclusion_files_membership : forall (files : exclusion_files) re,
+  In re (gen_regexes files) <-> exists f, In f files /\ In re f.
+Proof. exact gen_regexes_in_lemma. Qed.
+Print Assumptions C05_exclusion_files_membership.
+
+Theorem C05_exclusion_files_all_loaded :
+  forall (matches : bytes -> bytes -> bool) (files : exclusion_files) f re (c : opcfg) host text,
+    In f files -> In re f -> matches re text = true ->
+    in_scope c host text (regex_bits matches files text) = false.
+Proof. exact exclusion_files_all_loaded_lemma. Qed.
+Print Assumptions C05_exclusion_files_all_loaded.
+
 (* NormalizeURL's tests: http/https only, host not localhost / 127.0.0.1, host contains a dot. *)
 Theorem C05_shape_ok_spec : forall proto hn,
   shape_ok proto hn = true <->
